@@ -136,12 +136,14 @@ package fp
 //@   ensures promDispatch(cb)
 //
 //@ func (Promise).Complete(r, result) ret
+//@   option localinv
 //@   loop 0 invariant 0 <= idx_ && idx_ < len(cbs)
 //@   loop 0 decreases len(cbs) - idx_
 //
 //@ lemma promiseComplete[T any](v Try[T])
 //@   prop C05
 //@   option tailrec=tryCompleteAndGetListeners
+//@   option useinv=Complete
 //@   ensures promComplete(v)
 //
 //@ lemma promiseZeroValue[T any](v Try[T], cb func(Try[T]), e error, x T)
